@@ -564,16 +564,35 @@ def add_mul_wallace(
 
         c = cn
 
+    # The two remaining rows are two numbers; a column without a bit inside a
+    # number is a zero bit (it must not be skipped, or later bits lose weight).
+    zeros: list[str] = []
+
+    def _zero() -> str:
+        if not zeros:
+            zeros.append(
+                add_gate_from_tt(
+                    circuit, input_labels_a[0], input_labels_a[0], '0000'
+                )
+            )
+        return zeros[0]
+
     labels_a = []
     labels_b = []
     shift = 0
+    last_a = max(i for i in range(n + m) if c[i][0] != PLACEHOLDER_STR)
+    last_b = max(i for i in range(n + m) if c[i][1] != PLACEHOLDER_STR)
     for i in range(n + m):
         if c[i][0] != PLACEHOLDER_STR:
             labels_a.append(c[i][0])
+        elif i < last_a:
+            labels_a.append(_zero())
         if c[i][1] != PLACEHOLDER_STR:
             labels_b.append(c[i][1])
         elif len(labels_b) == 0:
             shift += 1
+        elif i < last_b:
+            labels_b.append(_zero())
 
     return reverse_if_big_endian(
         add_sum_two_numbers_with_shift(circuit, shift, labels_a, labels_b)[: n + m],
